@@ -390,6 +390,14 @@ namespace adept {
       if (LIsActive || RIsActive) {
 	throw(invalid_operation("Cannot yet do matmul(BandMatrix,Matrix) when either are active"));
       }
+      if (right.offset(0) < 0) {
+	// Each column is passed to BLAS as a vector: as for vectors, a
+	// negative increment is not what BLAS expects
+	Array<2,T,RIsActive> right_;
+	right_ = right;
+	return matmul_band<LIsActive>(left_ptr, left_order, LDiags, UDiags, left_dim,
+				      left_offset, left_gradient_index, right_);
+      }
       BLAS_ORDER order;
       // BLAS declares the start pointer to be in the "missing data"
       // zone, so we need to subtract from the address of the top-left
